@@ -932,8 +932,58 @@ func registerLibIntrinsics() {
 		}
 		return nil, true
 	}
-	I["sort.Slice"] = sortSlice
+	// sort.Slice is not stable: after sorting, one pair of neighbours that compare equal may
+	// come out in either order (one fork per call: "some tie was reordered")
+	I["sort.Slice"] = func(in *Interp, fr *frame, args []Value) (Value, bool) {
+		r, ok := sortSlice(in, fr, args)
+		if !ok {
+			return r, ok
+		}
+		it, _ := args[0].(Iface)
+		sl, _ := it.V.(Slice)
+		if sl.arr == nil || sl.n < 2 {
+			return r, true
+		}
+		el := (*sl.arr)[sl.off : sl.off+sl.n]
+		// runs of neighbours that compare equal: any member of one run may come out first
+		// (one run per call is reordered: "some tie group was permuted")
+		i := 0
+		for i < len(el) {
+			j := i
+			for j+1 < len(el) {
+				lt := in.call(fr, args[1], []Value{Int(j), Int(j + 1)}, nil, false)
+				if in.branch(lt, "sort.Slice tie test") {
+					break
+				}
+				j++
+			}
+			if j > i {
+				r := in.forkChoice(j-i+1, "sort.Slice: which of the elements that compare equal comes first")
+				if r > 0 {
+					moved := el[i+r]
+					copy(el[i+1:i+r+1], el[i:i+r])
+					el[i] = moved
+					break
+				}
+			}
+			i = j + 1
+		}
+		return r, true
+	}
 	I["sort.SliceStable"] = sortSlice
+	I["sort.Search"] = func(in *Interp, fr *frame, args []Value) (Value, bool) {
+		n := in.concreteInt(fr, args[0], "sort.Search n")
+		i, j := 0, n
+		for i < j {
+			h := int(uint(i+j) >> 1)
+			if !in.branch(in.call(fr, args[1], []Value{Int(h)}, nil, false), "sort.Search predicate") {
+				i = h + 1
+			} else {
+				j = h
+			}
+		}
+		return Int(i), true
+	}
 
 	// bytes.Buffer as a side object holding a Str
 	buf := func(in *Interp, v Value) *Obj {
